@@ -10,6 +10,7 @@ import (
 
 	"luasim/core"
 	"luasim/engines/cancelsweep"
+	"luasim/engines/cosched"
 	"luasim/engines/faultsweep"
 	"luasim/engines/limitswarm"
 	"luasim/engines/streamload"
@@ -20,6 +21,7 @@ var specs = map[string]*core.PropertySpec{
 	"C05": {Property: "C05", Engine: faultsweep.New("C05", "containment"), QuickS: 75, ThoroughS: 1800, RunCapS: 300},
 	"C11": {Property: "C11", Engine: cancelsweep.New, QuickS: 60, ThoroughS: 1500, RunCapS: 300},
 	"C12": {Property: "C12", Engine: limitswarm.New, QuickS: 60, ThoroughS: 1500, RunCapS: 300},
+	"C06": {Property: "C06", Engine: cosched.New, QuickS: 60, ThoroughS: 1200, RunCapS: 300},
 	"C08": {Property: "C08", Engine: streamload.New, QuickS: 45, ThoroughS: 900, RunCapS: 20, HangViolation: true},
 }
 
@@ -54,7 +56,7 @@ func main() {
 		json.Unmarshal(b, &rf)
 		prof := map[string]string{"C05": "containment", "C03": "closure", "C11": "cancel"}[rf.Property]
 		if rf.Property == "C11" {
-			faultsweep.Debug(prof, rf.Tape[1:])
+			faultsweep.Debug(prof, rf.Tape[2:])
 			return
 		}
 		faultsweep.Debug(prof, rf.Tape)
